@@ -1,9 +1,16 @@
 #!/usr/bin/env python3
 """
-rs2lean.py -- a small Rust -> Lean 4 translator for the integer/array subset used by gm-sm3.
+rs2lean.py -- a small Rust -> Lean 4 translator for the integer/array/struct subset used by gm-sm3, gm-zuc
+and the block-cipher part of gm-sm4.
 
     python3 rs2lean.py <input.rs> <output.lean> [--namespace GmVerif.Gen.SrcSM3]
                        [--usize-overflow=unchecked|panic]        (default: unchecked)
+                       [--only fn1,fn2,S::m,...]
+
+`--only` translates only the named `fn`s / methods (`S::m`) and the structs named or owning a named method
+(consts, statics, unit enums and `type R<T> = Result<T, E>;` aliases are always kept); every other fn /
+struct is skipped by bracket matching and listed in the output header.  A name that the file does not
+contain, or a reference from a translated item to a skipped one, makes the translator fail (exit 2).
 
 Pipeline: tokenise -> parse (recursive descent, Rust operator precedence) -> type check with
 integer-literal inference -> effect analysis -> emit Lean.  Anything outside the subset below makes
@@ -13,26 +20,43 @@ Nothing is guessed; the output depends only on the input bytes (no timestamps, n
 SUPPORTED SUBSET
   items   `fn` (typed params, optional `-> T`), `const`/`static` of a supported type,
           `enum` with unit variants (only the variant names are used, for `Err(E::V)`),
-          SKIPPED (listed in the output header): `use`, inner attributes, `impl` blocks, items under
+          `struct S { field: T, .. }` with named fields of supported types (no generics),
+          inherent `impl S { fn .. }` of such a struct: associated fns (`S::new(..)`) and methods taking
+          `&self` / `&mut self` (by-value `self` is rejected); each becomes the item `S.name`,
+          SKIPPED (listed in the output header): `use`, `mod name;`, inner attributes, every other `impl`
+          block (trait impls, impls of untranslated types), items under
           `#[cfg(test)]` / `#[cfg(gm_rs_verif)]`, const/static of an unsupported type.  A reference to
           anything skipped is an "unknown identifier" failure.
-  types   u8 u32 u64 usize bool (), [T; N], Vec<T>, &[T], &T (read-only borrow = value),
-          `&mut T` on parameters only, Result<T, E> as a function return type only.
+  types   u8 u32 u64 usize bool (), [T; N], Vec<T>, &[T], &T (read-only borrow = value), a translated
+          struct `S` (`Self` inside its impl), `&mut T` on parameters only, Result<T, E> as a function
+          return type only.
   stmts   let / let mut (optional type), assignment and compound assignment (+= -= *= ^= |= &= <<= >>=)
-          to a local or to `local[index]`, `while`, `for x in a..b`, `if / else if / else`, `return`,
-          expression statements `v.push(e)`, `f(&mut v, ..)`, tail expressions.
+          to a local, `local[index]`, `local.field` or `local.field[index]` (`self` counts as a local),
+          `while`, `for x in a..b`, `for _ in a..b`, `if / else if / else`, `return`,
+          expression statements `v.push(e)`, `f(&mut v, ..)`, `x.m(..)` for a `&mut self` method (its
+          value, if any, is discarded), tail expressions.
   exprs   integer literals (dec/hex/oct/bin, `_`, suffixes), true/false, locals, consts, `(e)`,
           `[e; N]`, `[a, b, ..]`, `a[i]`, `&a[lo..hi]` / `a[lo..hi].to_vec()` (`Rs.slice`, a copy), unary `!`, casts `as u8/u32/u64/usize`,
           `<< >> & | ^ + - * / %`, comparisons, `&& ||`, `if` expressions,
           methods `.wrapping_add/sub/mul`, `.rotate_left/right`, `.len()`, `.to_vec()`, `.clone()`,
           `.push(e)`, `.copy_from_slice(&src[..])`, `.unwrap()` (on a call of a Result function),
           `?` (same error type), `Ok(e)`, `Err(Enum::Variant)` (only as the returned value),
-          `u32::from(e)` / `u64::from(e)` / `usize::from(e)` (widening only), calls of translated fns.
+          `u32::from(e)` / `u64::from(e)` / `usize::from(e)` (widening only), calls of translated fns,
+          field access `e.f`, struct literals `S { f: e, g }` (every field, no `..base`), `vec![]`,
+          method calls `e.m(..)` of translated `&self` methods, and of `&mut self` methods on a local
+          when the call is the first thing the statement evaluates (see EMBEDDING),
+          `S::assoc(..)`, u32 `a << k` / `a >> k` with `k: u32` not a literal, u32 `a - b`,
+          `x.to_be_bytes()` (x: u32), `u32::from_be_bytes(b)` (b: [u8; 4]), `s.try_into().unwrap()` from a
+          slice to an array `[T; N]` whose type is known from the context,
+          statement `dst[lo..hi].copy_from_slice(src)` on a local `dst`.
+  type    `type R<T> = Result<T, E>;` (exactly this form), usable where `Result<T, E>` is.
 
 EMBEDDING (shallow)
   u8/u32/u64 -> UInt8/UInt32/UInt64 (Lean's operations on these wrap exactly like Rust's
-      wrapping_* / bit operations).  Plain `+ - *` on these types is REJECTED (Rust panics in debug
-      and wraps in release; write `wrapping_add`).
+      wrapping_* / bit operations).  Plain `+ *` on these types (and `-` on u8/u64) is REJECTED (Rust
+      panics in debug and wraps in release; write `wrapping_add`).  u32 `a - b` is `Rs.sub32` (panic when
+      b > a, i.e. overflow-checks on, like usize `-`: when a proof shows that no panic occurs the result
+      is also the release result).
   usize -> Nat, for a 64-bit target.  `+`, `*` are exact Nat operations: usize overflow is NOT
       modelled (same as the hand model; every such site is listed in the output header).  With
       `--usize-overflow=panic` they become `Rs.uadd` / `Rs.umul` (a result >= 2^64 panics, i.e.
@@ -40,7 +64,28 @@ EMBEDDING (shallow)
       `a - b` is `Rs.usub` (panic when b > a); `a << k` is `(a <<< k) % 2^64` (bits shifted out are
       discarded, no panic, k a literal < 64); `a >> k` is `a >>> k`; `/` and `%` by a non-literal or zero
       divisor are `Rs.udiv`/`Rs.urem` (panic on 0); `x as u64/u32/u8` is `UIntN.ofNat x` (truncation).
-  shifts on UIntN: only by an integer literal smaller than the width (otherwise rejected).
+  shifts on UIntN: by an integer literal smaller than the width; on u32 also by a non-literal `k: u32`:
+      `Rs.shl32` / `Rs.shr32` (k >= 32 panics: overflow-checks on; release Rust would mask k instead,
+      so again a no-panic proof makes the result the release result).  Anything else is rejected.
+      (`Rs.sub32`, `Rs.shl32`, `Rs.shr32` are emitted only into files that use them.)
+  struct S {..} -> a Lean `structure S` (deriving Repr, DecidableEq, Inhabited) with the same field names;
+      `S { f: e, .. }` -> `({ f := e, .. } : S)`; `x.f` -> `x.f`; `x.f = e` -> `x := { x with f := e }`;
+      `x.f[i] = e` -> `x := { x with f := (<- Rs.set x.f i e) }` (rhs, index, bounds check in Rust's order).
+  impl S { fn name(..) } -> `def S.name`.  `&self` -> an ordinary first parameter `self : S`.
+      `&mut self` -> like a `&mut` parameter: the fn takes `self : S` and returns the final `self`,
+      tupled after the result (`Outcome (T × S)`, or `Outcome S` for a unit method).
+      `x.m(a);` -> `x <- S.m x a` (unit) or `let c <- S.m x a; x := c.2` (value discarded).
+      `let v = .. x.m(a) ..;` (also in assignments, `push` arguments, returned values): the call is
+      emitted first as `let c <- S.m x a; x := c.2` and `c.1` stands for its value.  This is exactly
+      Rust's order when the call is the first thing the statement evaluates (it lies on the leftmost
+      evaluation path: `x.m() ^ x.f[3]` reads the updated `x.f`); any other position is rejected.
+  `for _ in a..b` -> `for _ in [a:b] do`; when the bounds are untyped literals Rust iterates over i32:
+      accepted when both fit i32 (the variable is unused, only the number of iterations matters).
+  `vec![]` -> `#[]` (element type from the first use).
+  `x.to_be_bytes()` -> `Rs.to_be_bytes32 x` (4-element array), `u32::from_be_bytes(b)` -> `Rs.from_be_bytes32 b`
+      (pure; reads b[0..3]), `s.try_into().unwrap()` -> `Rs.try_into_array s N` (length /= N: the `Err` that
+      `unwrap` turns into a panic), `dst[lo..hi].copy_from_slice(src)` -> `dst <- Rs.copy_into_range dst lo hi src`
+      (bad range panics, then a length mismatch panics).  These helpers are emitted only into files that use them.
   rotate_left(k): `GmVerif.rotl32 x k` (k literal) or `GmVerif.rotl32 x k.toNat` (Rust reduces mod 32).
   [T; N], Vec<T>, &[T] -> `Array T`.  `a[i]` -> `Rs.get a i`, `a[i] = v` -> `a <- Rs.set a i v`:
       out-of-range index = `Outcome.panic`.  `[e; N]` -> `Array.replicate N e`.
@@ -69,6 +114,12 @@ class Unsupported(Exception):
 
 SRC_NAME = '<input>'
 USIZE_CHECKED = False   # --usize-overflow=panic
+ONLY = None             # --only a,b,S::m : set of selected fn / struct names, or None (everything)
+
+def selected(name):
+    return ONLY is None or name in ONLY
+def struct_selected(name):
+    return ONLY is None or name in ONLY or any(o.startswith(name + '::') for o in ONLY)
 
 def fail(line, what):
     raise Unsupported('%s:%s: unsupported: %s' % (SRC_NAME, line, what))
@@ -178,19 +229,26 @@ class IntVar:
     def __init__(self, line):
         self.ref, self.line, self.vals = None, line, []
 
+class TyVar:
+    """element type of `vec![]`, resolved by unification (first `push` / use)"""
+    def __init__(self, line):
+        self.ref, self.line = None, line
+
 def resolve(t):
-    while isinstance(t, IntVar) and t.ref is not None:
+    while isinstance(t, (IntVar, TyVar)) and t.ref is not None:
         t = t.ref
     return t
 
 def tystr(t):
     t = resolve(t)
     if isinstance(t, IntVar): return '{integer}'
+    if isinstance(t, TyVar): return '_'
     if isinstance(t, tuple):
         if t[0] == 'array': return '[%s; %d]' % (tystr(t[1]), t[2])
         if t[0] == 'vec': return 'Vec<%s>' % tystr(t[1])
         if t[0] == 'slice': return '[%s]' % tystr(t[1])
         if t[0] == 'result': return 'Result<%s, %s>' % (tystr(t[1]), t[2])
+        if t[0] == 'struct': return t[1]
     return str(t)
 
 # ----------------------------------------------------------------------------------------------
@@ -207,6 +265,15 @@ class Parser:
     def __init__(self, toks):
         self.t, self.p = toks, 0
         self.skipped = []
+        self.selfty = None
+        # names of the `struct X { .. }` items of the file (a type may be used before its declaration)
+        self.struct_names = set()
+        self.aliases = {}       # `type R<T> = Result<T, E>;`  name -> E
+        self.seen = set()       # names of the fn / struct items met (to report a misspelt --only name)
+        for i in range(len(toks) - 2):
+            if toks[i].kind == 'ident' and toks[i].val == 'struct' and toks[i + 1].kind == 'ident' \
+                    and toks[i + 2].kind == 'punct' and toks[i + 2].val == '{' and struct_selected(toks[i + 1].val):
+                self.struct_names.add(toks[i + 1].val)
 
     def peek(self, k=0): return self.t[self.p + k]
     def at(self, val, k=0):
@@ -263,6 +330,15 @@ class Parser:
                 fail(x.line, 'item without a body')
             self.next()
 
+    def skip_struct(self):
+        self.next(); self.next()
+        if self.at('<'):
+            while not (self.at('{') or self.at('(') or self.at(';')): self.next()
+        if self.at('{'): self.skip_balanced('{', '}')
+        elif self.at('('):
+            self.skip_balanced('(', ')'); self.expect(';')
+        else: self.expect(';')
+
     # ---- items
     def parse_file(self):
         items = []
@@ -307,13 +383,57 @@ class Parser:
         x = self.peek()
         if self.at('use'):
             self.skip_item(); self.skipped.append((line, '`use` declaration')); return None
+        if self.at('mod') and self.peek(1).kind == 'ident' and self.at(';', 2):
+            self.next(); name = self.ident(); self.next()
+            self.skipped.append((line, '`mod %s;` (another file)' % name)); return None
         if self.at('impl'):
+            if self.peek(1).kind == 'ident' and self.peek(1).val in self.struct_names and self.at('{', 2):
+                return self.parse_impl()
             desc = []
             k = self.p
             while not (self.t[k].kind == 'punct' and self.t[k].val == '{'):
                 desc.append(str(self.t[k].val)); k += 1
             self.skip_item()
             self.skipped.append((line, '`%s` block' % ' '.join(desc))); return None
+        if self.at('type'):
+            # only the alias form `type R<T> = Result<T, E>;`
+            self.next(); name = self.ident()
+            ok = self.at('<') and self.peek(1).kind == 'ident' and self.at('>', 2) and self.at('=', 3) and \
+                self.at('Result', 4) and self.at('<', 5) and self.peek(6).kind == 'ident' and \
+                self.peek(6).val == self.peek(1).val and self.at(',', 7) and self.peek(8).kind == 'ident' and \
+                self.at('>', 9) and self.at(';', 10)
+            if not ok: fail(line, 'type alias `%s` that is not `type %s<T> = Result<T, E>;`' % (name, name))
+            self.aliases[name] = self.peek(8).val
+            self.p += 11
+            return None
+        if self.at('struct') and self.peek(1).kind == 'ident' and not struct_selected(self.peek(1).val):
+            name = self.peek(1).val
+            self.skip_struct()
+            self.skipped.append((line, 'struct `%s` (not selected by --only)' % name)); return None
+        if self.at('fn') and self.peek(1).kind == 'ident' and not selected(self.peek(1).val):
+            name = self.peek(1).val
+            self.seen.add(name)
+            self.skip_item()
+            self.skipped.append((line, 'fn `%s` (not selected by --only)' % name)); return None
+        if self.at('struct'):
+            self.next(); name = self.ident()
+            self.seen.add(name)
+            if not self.at('{'): fail(line, 'struct `%s` that is not `struct %s { field: T, .. }`' % (name, name))
+            self.next()
+            fields = []
+            while not self.at('}'):
+                self.parse_attrs()
+                if self.eat('pub'):
+                    if self.at('('): self.skip_balanced('(', ')')
+                fl = self.peek().line
+                fname = self.ident(); self.expect(':')
+                fty = self.parse_type()
+                if fname in [f[0] for f in fields]: fail(fl, 'duplicate field `%s`' % fname)
+                fields.append((fname, fty))
+                if not self.eat(','): break
+            self.expect('}')
+            if not fields: fail(line, 'struct `%s` without fields' % name)
+            return Node('struct', line, name=name, fields=fields)
         if self.at('enum'):
             self.next(); name = self.ident(); self.expect('{')
             variants = []
@@ -344,12 +464,49 @@ class Parser:
             return self.parse_fn()
         fail(line, 'item starting with `%s`' % x.val)
 
+    def parse_impl(self):
+        """inherent `impl S { fn .. }` of a translated struct: every fn becomes the item `S::name`"""
+        line = self.expect('impl').line
+        sname = self.ident(); self.expect('{')
+        fns = []
+        self.selfty = sname
+        while not self.at('}'):
+            if self.parse_attrs(): fail(self.peek().line, 'cfg-disabled item inside `impl`')
+            if self.eat('pub'):
+                if self.at('('): self.skip_balanced('(', ')')
+            if not self.at('fn'):
+                fail(self.peek().line, 'item starting with `%s` inside `impl %s`' % (self.peek().val, sname))
+            if self.peek(1).kind == 'ident' and not selected('%s::%s' % (sname, self.peek(1).val)):
+                fl = self.peek().line
+                self.seen.add('%s::%s' % (sname, self.peek(1).val))
+                self.skipped.append((fl, 'fn `%s::%s` (not selected by --only)' % (sname, self.peek(1).val)))
+                self.skip_item(); continue
+            fns.append(self.parse_fn())
+        self.expect('}')
+        self.selfty = None
+        return Node('impl', line, name=sname, fns=fns)
+
     def parse_fn(self):
         line = self.expect('fn').line
         name = self.ident()
         if self.at('<'): fail(line, 'generic function `%s`' % name)
         self.expect('(')
         params = []
+        selfkind = None
+        self.seen.add(name if self.selfty is None else '%s::%s' % (self.selfty, name))
+        if self.selfty is not None:
+            name = '%s.%s' % (self.selfty, name)
+            pl = self.peek().line
+            if self.at('&') and self.at('self', 1):
+                self.next(); self.next(); selfkind = 'ref'
+            elif self.at('&') and self.at('mut', 1) and self.at('self', 2):
+                self.next(); self.next(); self.next(); selfkind = 'mut'
+            elif self.at('self') or self.at('mut') and self.at('self', 1) or self.at('&') and self.peek(1).kind == 'lifetime':
+                fail(pl, '`self` parameter that is not `&self` / `&mut self`')
+            if selfkind is not None:
+                if self.at(':'): fail(pl, 'typed `self` parameter')
+                params.append(Node('param', pl, name='self', pty=('struct', self.selfty), mutref=(selfkind == 'mut')))
+                if not self.eat(',') and not self.at(')'): fail(pl, 'expected `,` or `)` after `self`')
         while not self.at(')'):
             pl = self.peek().line
             if self.at('mut'): fail(pl, '`mut` parameter binding')
@@ -369,7 +526,8 @@ class Parser:
             ret = self.parse_type(allow_result=True)
         if self.at('where'): fail(line, '`where` clause')
         body = self.parse_block()
-        return Node('fn', line, name=name, params=params, ret=ret, body=body)
+        return Node('fn', line, name=name, params=params, ret=ret, body=body, selfkind=selfkind,
+                    owner=self.selfty)
 
     # ---- types
     def close_angle(self):
@@ -399,6 +557,15 @@ class Parser:
             return name
         if name == 'Vec':
             self.expect('<'); elem = self.parse_type(); self.close_angle(); return ('vec', elem)
+        if name in self.struct_names:
+            if self.at('<'): fail(line, 'generic type `%s<..>`' % name)
+            return ('struct', name)
+        if name == 'Self' and self.selfty is not None:
+            return ('struct', self.selfty)
+        if name in self.aliases:
+            if not allow_result: fail(line, '`%s` outside a function return type' % name)
+            self.expect('<'); ok = self.parse_type(); self.close_angle()
+            return ('result', ok, self.aliases[name])
         if name == 'Result':
             if not allow_result: fail(line, '`Result` outside a function return type')
             self.expect('<'); ok = self.parse_type(); self.expect(','); err = self.ident(); self.close_angle()
@@ -443,8 +610,11 @@ class Parser:
         if self.at('match'): fail(line, '`match`')
         if self.at('for'):
             self.next()
-            if self.peek().kind != 'ident': fail(line, 'pattern in `for`')
-            v = self.ident(); self.expect('in')
+            if self.at('_'):
+                self.next(); v = '_'
+            elif self.peek().kind != 'ident': fail(line, 'pattern in `for`')
+            else: v = self.ident()
+            self.expect('in')
             r = self.parse_expr(nostruct=True)
             if r.kind == 'paren': r = r.e
             if r.kind != 'range' or r.lo is None or r.hi is None or r.inclusive:
@@ -564,7 +734,10 @@ class Parser:
                 if y.kind == 'int': fail(line, 'tuple field access')
                 name = self.ident()
                 if self.at('::'): fail(line, 'turbofish')
-                if not self.at('('): fail(line, 'field access `.%s`' % name)
+                if not self.at('('):
+                    if not self.struct_names: fail(line, 'field access `.%s`' % name)
+                    e = Node('field', line, base=e, name=name)
+                    continue
                 args = self.parse_args()
                 e = Node('method', line, recv=e, name=name, args=args)
             elif self.at('['):
@@ -623,10 +796,34 @@ class Parser:
                 self.next()
                 if self.at('<'): fail(line, 'turbofish')
                 segs.append(self.ident())
-            if self.at('!'): fail(line, 'macro `%s!`' % '::'.join(segs))
-            if self.at('{') and not ns: fail(line, 'struct literal `%s {..}`' % '::'.join(segs))
+            if self.at('!'):
+                if segs == ['vec'] and self.at('[', 1) and self.at(']', 2):
+                    self.next(); self.next(); self.next()
+                    return Node('vecnew', line)
+                fail(line, 'macro `%s!`' % '::'.join(segs) + (' with arguments' if segs == ['vec'] else ''))
+            if self.at('{') and not ns:
+                if len(segs) != 1 or segs[0] not in self.struct_names:
+                    fail(line, 'struct literal `%s {..}`' % '::'.join(segs))
+                self.next()
+                inits = []
+                while not self.at('}'):
+                    fl = self.peek().line
+                    if self.at('..'): fail(fl, 'struct update syntax `..base`')
+                    fname = self.ident()
+                    if self.eat(':'):
+                        fe = self.parse_expr()
+                    else:
+                        fe = Node('path', fl, segs=[fname])      # shorthand `S { field }`
+                    inits.append((fname, fe))
+                    if not self.eat(','): break
+                self.expect('}')
+                return Node('structlit', line, name=segs[0], inits=[x[1] for x in inits],
+                            fnames=[x[0] for x in inits])
             return Node('path', line, segs=segs)
         fail(line, 'token `%s` in an expression' % x.val)
+
+BUILTIN_METHODS = ('wrapping_add', 'wrapping_sub', 'wrapping_mul', 'rotate_left', 'rotate_right', 'len',
+                   'to_vec', 'clone', 'unwrap', 'push', 'copy_from_slice', 'to_be_bytes', 'try_into')
 
 # ----------------------------------------------------------------------------------------------
 # type checker (bidirectional, integer literals by unification)
@@ -648,16 +845,29 @@ class Local:
 class Checker:
     def __init__(self, items):
         self.items = items
-        self.consts, self.fns, self.enums = {}, {}, {}
+        self.consts, self.fns, self.enums, self.structs = {}, {}, {}, {}
+        flat = []
         for it in items:
-            tbl = {'const': self.consts, 'fn': self.fns, 'enum': self.enums}[it.kind]
+            if it.kind == 'impl': flat += it.fns
+            else: flat.append(it)
+        for it in flat:
+            tbl = {'const': self.consts, 'fn': self.fns, 'enum': self.enums, 'struct': self.structs}[it.kind]
             if it.name in tbl: fail(it.line, 'duplicate item `%s`' % it.name)
             tbl[it.name] = it
+        for st in self.structs.values():
+            for fname, _ in st.fields:
+                if '%s.%s' % (st.name, fname) in self.fns:
+                    fail(st.line, 'field and method of `%s` with the same name `%s`' % (st.name, fname))
         self.intvars = []
+        self.tyvars = []
 
     def unify(self, a, b, line, what):
         a, b = resolve(a), resolve(b)
         if a is b: return a
+        if isinstance(a, TyVar):
+            a.ref = b; return b
+        if isinstance(b, TyVar):
+            b.ref = a; return a
         if isinstance(a, IntVar):
             if isinstance(b, IntVar) or b in INT_TYPES:
                 a.ref = b; return b
@@ -705,12 +915,18 @@ class Checker:
         for it in self.items:
             if it.kind == 'fn':
                 self.check_fn(it)
+            elif it.kind == 'impl':
+                for f in it.fns: self.check_fn(f)
 
     def finish(self, it):
         for v in self.intvars:
             if resolve(v) is v:
                 fail(v.line, 'integer literal whose type is not determined (Rust would default to i32) in `%s`' % it.name)
         self.intvars = []
+        for v in self.tyvars:
+            if resolve(v) is v:
+                fail(v.line, '`vec![]` whose element type is not determined in `%s`' % it.name)
+        self.tyvars = []
 
     def check_fn(self, fn):
         self.scopes, self.used, self.cur = [{}], {}, fn
@@ -797,8 +1013,15 @@ class Checker:
             t = self.expr(s.lo, None)
             t2 = self.expr(s.hi, t)
             s.ity = self.unify(t, t2, s.line, '`for` range bounds')
+            if s.var == '_' and isinstance(resolve(s.ity), IntVar):
+                # `for _ in 0..32`: Rust infers i32; the variable is unused, so only the number of
+                # iterations matters -- the same as for the Nat range, provided both bounds fit i32
+                lo, hi = literal_value(s.lo), literal_value(s.hi)
+                if lo is None or hi is None or lo >= 2 ** 31 or hi >= 2 ** 31:
+                    fail(s.line, '`for _ in a..b` whose bounds are not i32 literals')
+                s.ity = self.unify(s.ity, 'usize', s.line, '`for` range bounds')
             self.push()
-            s.loc = self.declare(s.var, s.ity, False, 'for', s.line)
+            s.loc = self.declare(s.var, s.ity, False, 'for', s.line) if s.var != '_' else None
             self.loopdepth = getattr(self, 'loopdepth', 0) + 1
             self.block(s.body, None)
             self.loopdepth -= 1
@@ -816,6 +1039,11 @@ class Checker:
                 self.ifnode(e, None)
             elif e.kind == 'method' and e.name in ('push', 'copy_from_slice'):
                 self.mutmethod(e)
+            elif e.kind == 'method' and e.name not in BUILTIN_METHODS:
+                self.expr(e, None, stmt=True)
+                if getattr(e, 'mutself', None) is None:
+                    fail(s.line, 'method-call statement without `&mut self` (no effect on the state)')
+                e.stmtcall = True
             elif e.kind == 'call':
                 t = self.expr(e, None, stmt=True)
                 if resolve(t) != 'unit': fail(s.line, 'call statement that discards a value')
@@ -837,7 +1065,25 @@ class Checker:
             self.expr(e.idx, 'usize')
             e.ty = elem_of(loc.ty, e.line, 'indexing')
             return loc, e.idx
-        fail(e.line, '%s to a place that is not `x` or `x[i]`' % what)
+        if e.kind == 'field' and e.base.kind == 'path' and len(e.base.segs) == 1:
+            loc, _ = self.place(e.base, what)
+            e.ty = self.fieldty(loc.ty, e.name, e.line)
+            return loc, None
+        if e.kind == 'index' and e.base.kind == 'field' and e.base.base.kind == 'path' and len(e.base.base.segs) == 1:
+            loc, _ = self.place(e.base, what)
+            if e.idx.kind == 'range': fail(e.line, '%s to a slice' % what)
+            self.expr(e.idx, 'usize')
+            e.ty = elem_of(e.base.ty, e.line, 'indexing')
+            return loc, e.idx
+        fail(e.line, '%s to a place that is not `x`, `x[i]`, `x.f` or `x.f[i]`' % what)
+
+    def fieldty(self, t, fname, line):
+        t = resolve(t)
+        if not (isinstance(t, tuple) and t[0] == 'struct'):
+            fail(line, 'field access `.%s` on %s' % (fname, tystr(t)))
+        for n, ft in self.structs[t[1]].fields:
+            if n == fname: return ft
+        fail(line, 'unknown field `%s` of `%s`' % (fname, t[1]))
 
     def assign(self, s):
         loc, idx = self.place(s.lhs, 'assignment')
@@ -851,6 +1097,20 @@ class Checker:
             self.binop(s.bin, lt, lhs_done=True)
 
     def mutmethod(self, e):
+        r = e.recv
+        if e.name == 'copy_from_slice' and r.kind == 'index' and r.idx.kind == 'range' and \
+                r.base.kind == 'path' and len(r.base.segs) == 1:
+            # `dst[lo..hi].copy_from_slice(src)`
+            loc, _ = self.place(r.base, '`.copy_from_slice`')
+            if r.idx.inclusive or r.idx.lo is None or r.idx.hi is None:
+                fail(e.line, '`.copy_from_slice` on a range that is not `lo..hi`')
+            self.expr(r.idx.lo, 'usize'); self.expr(r.idx.hi, 'usize')
+            if len(e.args) != 1: fail(e.line, '`.copy_from_slice` arity')
+            at = self.expr(e.args[0], None)
+            self.unify(elem_of(loc.ty, e.line, '`.copy_from_slice`'), elem_of(at, e.line, '`.copy_from_slice` argument'),
+                       e.line, '`.copy_from_slice`')
+            e.rangecopy = True
+            return
         if e.recv.kind != 'path' or len(e.recv.segs) != 1:
             fail(e.line, '`.%s` on something that is not a local' % e.name)
         loc, _ = self.place(e.recv, '`.%s`' % e.name)
@@ -954,11 +1214,23 @@ class Checker:
                 return ('slice', elem_of(bt, e.line, 'slicing'))
             self.expr(e.idx, 'usize')
             return elem_of(bt, e.line, 'indexing')
+        if k == 'field':
+            return self.fieldty(self.expr(e.base, None), e.name, e.line)
+        if k == 'structlit':
+            st = self.structs[e.name]
+            if sorted(e.fnames) != sorted(n for n, _ in st.fields):
+                fail(e.line, 'struct literal `%s {..}` that does not name every field exactly once' % e.name)
+            for n, x in zip(e.fnames, e.inits):
+                self.expr(x, self.fieldty(('struct', e.name), n, x.line))
+            return ('struct', e.name)
+        if k == 'vecnew':
+            v = TyVar(e.line); self.tyvars.append(v)
+            return ('vec', v)
         if k == 'if':
             if expected is None: fail(e.line, '`if` expression whose type is not known from context')
             return self.ifnode(e, expected)
         if k == 'method':
-            return self.method(e, expected, allow_result)
+            return self.method(e, expected, allow_result, stmt)
         if k == 'try':
             c = e.e
             if c.kind != 'call' or c.path[-1] not in self.fns: fail(e.line, '`?` on something that is not a call of a translated fn')
@@ -989,8 +1261,13 @@ class Checker:
             if not is_int(lt): fail(e.line, 'shift of %s' % tystr(lt))
             r = e.r
             while r.kind == 'paren': r = r.e
-            if r.kind != 'lit': fail(e.line, 'shift by an amount that is not an integer literal')
-            e.amount = r.val
+            if r.kind != 'lit':
+                rt = resolve(self.expr(e.r, None))
+                if resolve(lt) != 'u32' or rt != 'u32':
+                    fail(e.line, 'shift of %s by a non-literal amount of type %s' % (tystr(lt), tystr(rt)))
+                e.amount = None
+            else:
+                e.amount = r.val
             e.opty = lt; e.ty = lt
             return lt
         lt = e.l.ty if lhs_done else self.expr(e.l, expected)
@@ -1003,8 +1280,10 @@ class Checker:
         e.opty = t; e.ty = t
         return t
 
-    def method(self, e, expected, allow_result):
+    def method(self, e, expected, allow_result, stmt=False):
         n = e.name
+        if n not in BUILTIN_METHODS:
+            return self.usermethod(e, stmt)
         if n in ('wrapping_add', 'wrapping_sub', 'wrapping_mul'):
             if len(e.args) != 1: fail(e.line, '`.%s` arity' % n)
             t = self.expr(e.recv, expected)
@@ -1027,6 +1306,25 @@ class Checker:
                 return ('vec', elem_of(t, e.line, '`.to_vec()`'))
             if not (isinstance(t, tuple) or t in INT_TYPES or t == 'bool'): fail(e.line, '`.clone()` on %s' % tystr(t))
             return t
+        if n == 'to_be_bytes':
+            if e.args: fail(e.line, '`.to_be_bytes` arity')
+            t = resolve(self.expr(e.recv, 'u32'))
+            return ('array', 'u8', 4)
+        if n == 'try_into':
+            fail(e.line, '`.try_into()` that is not `slice.try_into().unwrap()` where an array `[T; N]` is expected')
+        if n == 'unwrap' and e.recv.kind == 'method' and e.recv.name == 'try_into':
+            # `s.try_into().unwrap()` : slice -> [T; N] (N from the expected type), wrong length panics
+            c = e.recv
+            if e.args or c.args: fail(e.line, '`.try_into().unwrap()` arity')
+            ex = resolve(expected) if expected is not None else None
+            if not (isinstance(ex, tuple) and ex[0] == 'array'):
+                fail(e.line, '`.try_into().unwrap()` where the expected array type is not known')
+            st = resolve(self.expr(c.recv, None))
+            if not (isinstance(st, tuple) and st[0] in ('slice', 'vec', 'array')):
+                fail(e.line, '`.try_into()` on %s' % tystr(st))
+            self.unify(st[1], ex[1], e.line, '`.try_into()`')
+            e.tryinto = ex[2]; c.ty = ex
+            return ex
         if n == 'unwrap':
             if e.args: fail(e.line, '`.unwrap` arity')
             c = e.recv
@@ -1037,8 +1335,42 @@ class Checker:
             return t[1]
         fail(e.line, 'method `.%s`' % n)
 
+    def usermethod(self, e, stmt):
+        """`recv.m(args)` where recv has a translated struct type and `m` takes `&self` / `&mut self`"""
+        n = e.name
+        rt = resolve(self.expr(e.recv, None))
+        if not (isinstance(rt, tuple) and rt[0] == 'struct'):
+            fail(e.line, 'method `.%s`' % n)
+        fn = self.fns.get('%s.%s' % (rt[1], n))
+        if fn is None or fn.selfkind is None:
+            fail(e.line, 'method `.%s` of `%s`' % (n, rt[1]))
+        if self.cur is not None:
+            self.cur.calls = getattr(self.cur, 'calls', [])
+            if fn.name not in self.cur.calls: self.cur.calls.append(fn.name)
+        if len(e.args) != len(fn.params) - 1:
+            fail(e.line, 'call of `%s` with %d arguments' % (fn.name, len(e.args)))
+        e.fn = fn; e.mutself = None
+        if fn.selfkind == 'mut':
+            if not (e.recv.kind == 'path' and len(e.recv.segs) == 1):
+                fail(e.line, 'call of the `&mut self` method `.%s` on something that is not a local' % n)
+            loc, _ = self.place(e.recv, '`&mut self` call')
+            e.mutself = loc
+        for a, prm in zip(e.args, fn.params[1:]):
+            if prm.mutref: fail(a.line, '`&mut` argument of a method call')
+            self.expr(a, prm.pty)
+        t = fn.ret
+        if isinstance(t, tuple) and t[0] == 'result':
+            fail(e.line, 'method returning `Result`')
+        if t == 'unit' and not stmt:
+            fail(e.line, 'unit method call used as a value')
+        return t
+
     def call(self, e, expected, allow_result, stmt):
         p = e.path
+        if len(p) == 2 and p[0] in self.structs:
+            p = e.path = ['%s.%s' % (p[0], p[1])]
+            if p[0] in self.fns and self.fns[p[0]].selfkind is not None:
+                fail(e.line, 'method `%s` called as a path' % p[0])
         if len(p) == 2 and p[1] == 'from' and p[0] in INT_TYPES:
             if len(e.args) != 1: fail(e.line, '`%s::from` arity' % p[0])
             ft = resolve(self.expr(e.args[0], None))
@@ -1048,6 +1380,11 @@ class Checker:
                 fail(e.line, '`usize::from(%s)`' % tystr(ft))
             e.builtin = 'from'; e.fromty = ft
             return p[0]
+        if p == ['u32', 'from_be_bytes']:
+            if len(e.args) != 1: fail(e.line, '`u32::from_be_bytes` arity')
+            self.expr(e.args[0], ('array', 'u8', 4))
+            e.builtin = 'from_be_bytes'
+            return 'u32'
         if len(p) != 1: fail(e.line, 'call of path `%s`' % '::'.join(p))
         name = p[0]
         if name in ('Ok', 'Err', 'Some', 'None'):
@@ -1105,6 +1442,9 @@ def node_effect(n, effectful_fns):
     if k == 'method' and n.name in ('unwrap', 'copy_from_slice'): return True
     if k == 'call' and getattr(n, 'retkind', None) == 'err': return True
     if k == 'call' and hasattr(n, 'fn') and n.fn.name in effectful_fns: return True
+    if k == 'method' and hasattr(n, 'fn') and n.fn.name in effectful_fns: return True
+    if k == 'bin' and n.op in ('<<', '>>') and getattr(n, 'amount', 0) is None: return True
+    if k == 'bin' and n.op == '-' and resolve(n.opty) == 'u32': return True
     if k == 'bin' and n.op in ('/', '%'):
         v = literal_value(n.r)
         return v is None or v == 0
@@ -1114,7 +1454,8 @@ def node_effect(n, effectful_fns):
         if n.lhs.kind == 'index': return True
         if n.op in ('/=', '%='):
             v = literal_value(n.rhs); return v is None or v == 0
-        if n.op == '-=' and resolve(n.lhs.ty) == 'usize': return True
+        if n.op == '-=' and resolve(n.lhs.ty) in ('usize', 'u32'): return True
+        if n.op in ('<<=', '>>=') and getattr(n.bin, 'amount', 0) is None: return True
         if n.op in ('+=', '*=') and resolve(n.lhs.ty) == 'usize' and USIZE_CHECKED: return True
     return False
 
@@ -1148,6 +1489,7 @@ postfix return break continue try catch finally unless repeat while nomatch nofu
 abbrev axiom attribute export mutual opaque'''.split())
 
 def lname(s):
+    if '.' in s: return '.'.join(lname(x) for x in s.split('.'))
     return '«%s»' % s if s in LEAN_KEYWORDS else s
 
 def lean_ty(t):
@@ -1161,6 +1503,8 @@ def lean_ty(t):
     if isinstance(t, tuple) and t[0] in ('array', 'vec', 'slice'):
         inner = lean_ty(t[1])
         return 'Array %s' % (inner if ' ' not in inner else '(%s)' % inner)
+    if isinstance(t, tuple) and t[0] == 'struct':
+        return lname(t[1])
     raise Unsupported('internal: no Lean type for %s' % tystr(t))
 
 def paren_ty(s):
@@ -1171,6 +1515,7 @@ class Emitter:
         self.chk, self.ns = chk, ns
         self.effectful = set()
         self.unchecked_sites = []
+        self.helpers = set()      # on-demand run-time support (PRELUDE_EXTRA) used by the output
 
     def lit(self, e, t):
         t = resolve(t)
@@ -1234,6 +1579,13 @@ class Emitter:
                 hi = self.atom(self.expr(e.idx.hi)) if e.idx.hi is not None else '%s.size' % base
                 return self.act('Rs.slice %s %s %s' % (base, lo, hi))
             return self.act('Rs.get %s %s' % (self.atom(self.expr(e.base)), self.atom(self.expr(e.idx))))
+        if k == 'field':
+            return '%s.%s' % (self.atom(self.expr(e.base)), lname(e.name))
+        if k == 'structlit':
+            return '({ %s } : %s)' % (', '.join('%s := %s' % (lname(n), self.expr(x))
+                                                  for n, x in zip(e.fnames, e.inits)), lname(e.name))
+        if k == 'vecnew':
+            return '#[]'
         if k == 'if':
             if has_effect(e.th, self.effectful) or has_effect(e.el, self.effectful) or e.th.stmts or e.el.stmts:
                 fail(e.line, '`if` expression with statements or panicking operations in its branches')
@@ -1242,6 +1594,9 @@ class Emitter:
         if k == 'try':
             return self.act(self.callstr(e.e))
         if k == 'call':
+            if getattr(e, 'builtin', None) == 'from_be_bytes':
+                self.helpers.add('from_be_bytes32')
+                return '(Rs.from_be_bytes32 %s)' % self.atom(self.expr(e.args[0]))
             if getattr(e, 'builtin', None) == 'from':
                 x = self.expr(e.args[0])
                 if e.fromty == e.path[0]: return x
@@ -1282,6 +1637,10 @@ class Emitter:
             return '(decide %s)' % self.cond(e)
         t = resolve(e.opty)
         l = self.expr(e.l)
+        if op in ('<<', '>>') and e.amount is None:
+            h = 'shl32' if op == '<<' else 'shr32'
+            self.helpers.add(h)
+            return self.act('Rs.%s %s %s' % (h, self.atom(l), self.atom(self.expr(e.r))))
         if op in ('<<', '>>'):
             if e.amount >= BITS[t]: fail(e.line, 'shift by %d on %s' % (e.amount, t))
             if t == 'usize':
@@ -1293,6 +1652,9 @@ class Emitter:
             if t == 'bool':
                 return '(%s %s %s)' % (l, {'&': '&&', '|': '||', '^': '!='}[op], r)
             return '(%s %s %s)' % (l, {'&': '&&&', '|': '|||', '^': '^^^'}[op], r)
+        if t == 'u32' and op == '-':
+            self.helpers.add('sub32')
+            return self.act('Rs.sub32 %s %s' % (self.atom(l), self.atom(r)))
         if t != 'usize':
             if op in ('+', '-', '*'):
                 fail(e.line, 'operator `%s` on %s (panics in debug, wraps in release; write wrapping_%s)'
@@ -1314,8 +1676,50 @@ class Emitter:
             return '(%s %s %s)' % (l, op, r)
         fail(e.line, 'operator `%s`' % op)
 
+    def methodcall(self, e):
+        return ' '.join([lname(e.fn.name), self.atom(self.expr(e.recv))] +
+                        [self.atom(self.expr(a)) for a in e.args])
+
+    def hoist(self, ind, exprs):
+        """`x.m(..)` with `&mut self` inside the expressions of one statement: Rust evaluates it, updating
+        `x`, before the operands to its right.  It is emitted as two statements of its own in front
+        (`let c <- S.m x ..; x := c.2`, the value is `c.1`), which is only done when nothing of the statement
+        is evaluated before the call (it lies on the leftmost evaluation path of the first expression)."""
+        found = []
+        for x in exprs:
+            walk(x, lambda n: found.append(n) if n.kind == 'method' and getattr(n, 'mutself', None) is not None else None)
+        if not found: return
+        if len(found) > 1: fail(found[1].line, 'two `&mut self` method calls in one statement')
+        m = found[0]
+        n = exprs[0]
+        while n is not m:
+            if n.kind in ('paren', 'cast', 'not', 'borrow', 'try'): n = n.e
+            elif n.kind == 'bin' and n.op not in ('&&', '||'): n = n.l
+            elif n.kind == 'method' and getattr(n, 'fn', None) is None: n = n.recv
+            elif n.kind == 'index': n = n.base
+            elif n.kind == 'field': n = n.base
+            elif n.kind == 'call' and n.args: n = n.args[0]
+            else: fail(m.line, 'call of a `&mut self` method after other operands of the statement have been evaluated')
+        self.tmpcount = getattr(self, 'tmpcount', 0) + 1
+        tmp = 'call_L%d_%d' % (m.line, self.tmpcount)
+        v = lname(m.mutself.lname)
+        eff = m.fn.name in self.effectful
+        self.out(ind, 'let %s %s %s' % (tmp, self.bind(eff), self.methodcall(m)))
+        if m.fn.ret == 'unit':
+            self.out(ind, '%s := %s' % (v, tmp))
+        else:
+            self.out(ind, '%s := %s.2' % (v, tmp))
+            m.hoisted = '%s.1' % tmp
+
     def method(self, e):
         n = e.name
+        if getattr(e, 'fn', None) is not None:
+            if e.mutself is not None:
+                if getattr(e, 'hoisted', None) is None:
+                    fail(e.line, 'call of a `&mut self` method in this position')
+                return e.hoisted
+            s = self.methodcall(e)
+            return self.act(s) if e.fn.name in self.effectful else '(%s)' % s
         if n in ('wrapping_add', 'wrapping_sub', 'wrapping_mul'):
             t = resolve(e.ty)
             if t == 'usize': fail(e.line, '`.%s` on usize' % n)
@@ -1334,6 +1738,12 @@ class Emitter:
             return '%s.size' % self.atom(self.expr(e.recv))
         if n in ('to_vec', 'clone'):
             return self.expr(e.recv)
+        if n == 'to_be_bytes':
+            self.helpers.add('to_be_bytes32')
+            return '(Rs.to_be_bytes32 %s)' % self.atom(self.expr(e.recv))
+        if n == 'unwrap' and getattr(e, 'tryinto', None) is not None:
+            self.helpers.add('try_into_array')
+            return self.act('Rs.try_into_array %s %d' % (self.atom(self.expr(e.recv.recv)), e.tryinto))
         if n == 'unwrap':
             return self.act('Rs.unwrap (%s)' % self.callstr(e.recv))
         fail(e.line, 'method `.%s`' % n)
@@ -1358,6 +1768,7 @@ class Emitter:
         if e is None:
             self.out(ind, 'return %s' % self.ret_value(fn, None)); return
         while e.kind == 'paren': e = e.e
+        if e.kind != 'if': self.hoist(ind, [e])
         if e.kind == 'if' and getattr(e, 'isret', False):
             self.emit_if(ind, e, tailret=True); return
         rk = getattr(e, 'retkind', 'plain')
@@ -1397,9 +1808,33 @@ class Emitter:
     def stmt(self, ind, s):
         k = s.kind
         if k == 'let':
+            self.hoist(ind, [s.init])
             ann = ' : %s' % lean_ty(s.loc.ty)
             self.out(ind, 'let %s%s%s := %s' % ('mut ' if s.mut else '', lname(s.loc.lname), ann, self.expr(s.init)))
+        elif k == 'assign' and (s.lhs.kind == 'field' or s.lhs.kind == 'index' and s.lhs.base.kind == 'field'):
+            # `x.f = e` / `x.f[i] = e`: the struct value is rebuilt with the new field
+            if s.op == '=': self.hoist(ind, [s.rhs])
+            fld = s.lhs if s.lhs.kind == 'field' else s.lhs.base
+            v = lname(fld.base.loc.lname)
+            if s.lhs.kind == 'field':
+                rhs = self.expr(s.rhs) if s.op == '=' else self.binop(s.bin)
+                self.out(ind, '%s := { %s with %s := %s }' % (v, v, lname(fld.name), rhs))
+            else:
+                # Rust evaluates the right-hand side first, then the index, then the bounds check
+                if s.op == '=' and has_effect(s.rhs, self.effectful) and has_effect(s.lhs.idx, self.effectful):
+                    self.tmpcount = getattr(self, 'tmpcount', 0) + 1
+                    tmp = 'rhs_L%d_%d' % (s.line, self.tmpcount)
+                    self.out(ind, 'let %s : %s := %s' % (tmp, lean_ty(s.lhs.ty), self.expr(s.rhs)))
+                    rhs = tmp
+                else:
+                    rhs = self.expr(s.rhs) if s.op == '=' else None
+                idx = self.atom(self.expr(s.lhs.idx))
+                if s.op != '=':
+                    rhs = self.binop(s.bin)
+                self.out(ind, '%s := { %s with %s := (← Rs.set %s.%s %s %s) }' % (
+                    v, v, lname(fld.name), v, lname(fld.name), idx, self.atom(rhs)))
         elif k == 'assign':
+            if s.op == '=': self.hoist(ind, [s.rhs])
             v = lname((s.lhs if s.lhs.kind == 'path' else s.lhs.base).loc.lname)
             if s.lhs.kind == 'path':
                 rhs = self.expr(s.rhs) if s.op == '=' else self.binop(s.bin)
@@ -1429,7 +1864,8 @@ class Emitter:
                 self.emit_block(ind + 1, s.body, False)
         elif k == 'for':
             if resolve(s.ity) != 'usize': fail(s.line, '`for` over a range of %s' % tystr(s.ity))
-            self.out(ind, 'for %s in [%s:%s] do' % (lname(s.loc.lname), self.expr(s.lo), self.expr(s.hi)))
+            self.out(ind, 'for %s in [%s:%s] do' % (lname(s.loc.lname) if s.loc is not None else '_',
+                                                    self.expr(s.lo), self.expr(s.hi)))
             self.emit_block(ind + 1, s.body, False)
         elif k == 'return':
             self.emit_return(ind, s.e)
@@ -1437,10 +1873,28 @@ class Emitter:
             e = s.e
             if e.kind == 'if':
                 self.emit_if(ind, e)
+            elif e.kind == 'method' and e.name == 'copy_from_slice' and getattr(e, 'rangecopy', False):
+                self.helpers.add('copy_into_range')
+                v = lname(e.recv.base.loc.lname)
+                self.out(ind, '%s ← Rs.copy_into_range %s %s %s %s' % (
+                    v, v, self.atom(self.expr(e.recv.idx.lo)), self.atom(self.expr(e.recv.idx.hi)),
+                    self.atom(self.expr(e.args[0]))))
             elif e.kind == 'method' and e.name == 'copy_from_slice':
                 v = lname(e.recv.loc.lname)
                 self.out(ind, '%s ← Rs.copy_from_slice %s %s' % (v, v, self.atom(self.expr(e.args[0]))))
+            elif e.kind == 'method' and getattr(e, 'stmtcall', False):
+                # `x.m(..);` with `&mut self`: the returned value (if any) is discarded, `x` is updated
+                v = lname(e.mutself.lname)
+                eff = e.fn.name in self.effectful
+                if e.fn.ret == 'unit':
+                    self.out(ind, '%s %s %s' % (v, self.bind(eff), self.methodcall(e)))
+                else:
+                    self.tmpcount = getattr(self, 'tmpcount', 0) + 1
+                    tmp = 'call_L%d_%d' % (e.line, self.tmpcount)
+                    self.out(ind, 'let %s %s %s' % (tmp, self.bind(eff), self.methodcall(e)))
+                    self.out(ind, '%s := %s.2' % (v, tmp))
             elif e.kind == 'method' and e.name == 'push':
+                self.hoist(ind, e.args)
                 v = lname(e.recv.loc.lname)
                 self.out(ind, '%s := %s.push %s' % (v, v, self.atom(self.expr(e.args[0]))))
             elif e.kind == 'call':
@@ -1532,12 +1986,49 @@ namespace Rs
 end Rs
 '''
 
+# run-time support that is emitted only when the translated file uses it (so that the output for
+# files that do not need it is unchanged)
+PRELUDE_EXTRA = [
+    ('shl32', '''\
+/-- u32 `a << k` with a non-literal amount: `k >= 32` panics (overflow-checks on; when this never fires
+    the result is also the release-mode result) -/
+@[inline] def shl32 (a k : UInt32) : Outcome UInt32 := if k < 32 then .ok (a <<< k) else .panic'''),
+    ('shr32', '''\
+/-- u32 `a >> k` with a non-literal amount: `k >= 32` panics (as for `shl32`) -/
+@[inline] def shr32 (a k : UInt32) : Outcome UInt32 := if k < 32 then .ok (a >>> k) else .panic'''),
+    ('to_be_bytes32', '''\
+/-- `x.to_be_bytes()` on u32 -/
+@[inline] def to_be_bytes32 (x : UInt32) : Array UInt8 :=
+  #[(x >>> 24).toUInt8, (x >>> 16).toUInt8, (x >>> 8).toUInt8, x.toUInt8]'''),
+    ('from_be_bytes32', '''\
+/-- `u32::from_be_bytes(b)`, `b : [u8; 4]` -/
+@[inline] def from_be_bytes32 (b : Array UInt8) : UInt32 :=
+  (b[0]!.toUInt32 <<< 24) ||| (b[1]!.toUInt32 <<< 16) ||| (b[2]!.toUInt32 <<< 8) ||| b[3]!.toUInt32'''),
+    ('try_into_array', '''\
+/-- `s.try_into().unwrap()` from a slice to `[T; n]`: a different length is `Err`, which `unwrap` panics on -/
+@[inline] def try_into_array {α} (s : Array α) (n : Nat) : Outcome (Array α) :=
+  if s.size = n then .ok s else .panic'''),
+    ('copy_into_range', '''\
+/-- `dst[lo..hi].copy_from_slice(src)`: a bad range panics, then different lengths panic -/
+@[inline] def copy_into_range {α} (dst : Array α) (lo hi : Nat) (src : Array α) : Outcome (Array α) :=
+  if lo ≤ hi ∧ hi ≤ dst.size then
+    if src.size = hi - lo then .ok (dst.extract 0 lo ++ src ++ dst.extract hi dst.size) else .panic
+  else .panic'''),
+    ('sub32', '''\
+/-- u32 `a - b`: underflow panics (overflow-checks on; when this never fires the result is also the
+    release-mode result) -/
+@[inline] def sub32 (a b : UInt32) : Outcome UInt32 := if b ≤ a then .ok (a - b) else .panic'''),
+]
+
 def translate(src, ns, srcname):
     global SRC_NAME
     SRC_NAME = srcname
     toks = lex(src)
     ps = Parser(toks)
     items = ps.parse_file()
+    if ONLY is not None:
+        missing = sorted(o for o in ONLY if o not in ps.seen)
+        if missing: fail(1, '--only names an item that the file does not contain: %s' % ', '.join(missing))
     chk = Checker(items)
     chk.check_all()
     em = Emitter(chk, ns)
@@ -1549,10 +2040,16 @@ def translate(src, ns, srcname):
     for it in items:
         if it.kind == 'const':
             body += ['/-- line %d: `%s` -/' % (it.line, it.name)] + em.emit_const(it) + ['']
+    for it in items:
+        if it.kind == 'struct':
+            body += ['/-- line %d: `struct %s` -/' % (it.line, it.name), 'structure %s where' % lname(it.name)]
+            body += ['  %s : %s' % (lname(n), lean_ty(t)) for n, t in it.fields]
+            body += ['deriving Repr, DecidableEq, Inhabited', '']
     for f in fns:
-        sig = ', '.join('%s: %s%s' % (p.name, '&mut ' if p.mutref else '', tystr(p.pty)) for p in f.params)
+        sig = ', '.join(('&mut self' if p.mutref else '&self') if p.name == 'self' else
+                        '%s: %s%s' % (p.name, '&mut ' if p.mutref else '', tystr(p.pty)) for p in f.params)
         body += ['/-- line %d: `fn %s(%s)%s` (%s) -/' % (
-            f.line, f.name, sig, '' if f.ret == 'unit' else ' -> ' + tystr(f.ret),
+            f.line, f.name.replace('.', '::'), sig, '' if f.ret == 'unit' else ' -> ' + tystr(f.ret),
             'effectful: Outcome monad' if f.name in em.effectful else 'pure')]
         body += em.emit_fn(f) + ['']
     h = hashlib.sha256(src.encode('utf-8')).hexdigest()
@@ -1570,16 +2067,23 @@ def translate(src, ns, srcname):
                    + (', '.join('line %d `%s`' % s for s in sorted(set(em.unchecked_sites))) or 'none'))
     out += ['import GmVerif.Common', 'namespace %s' % ns, 'open GmVerif', '']
     out += PRELUDE.split('\n')
+    if em.helpers:
+        out += ['/-! ### run-time support used by this file only (fixed text, part of the translator) -/', 'namespace Rs']
+        for name, text in PRELUDE_EXTRA:
+            if name in em.helpers: out += text.split('\n')
+        out += ['end Rs', '']
     out += body
     out += ['end %s' % ns, '']
     return '\n'.join(out)
 
 def main(argv):
-    global USIZE_CHECKED
+    global USIZE_CHECKED, ONLY
     args = [a for a in argv[1:] if not a.startswith('--')]
     ns = 'GmVerif.Gen.SrcSM3'
     for i, a in enumerate(argv):
         if a == '--namespace': ns = argv[i + 1]; args.remove(argv[i + 1])
+        elif a == '--only':
+            ONLY = set(x for x in argv[i + 1].split(',') if x); args.remove(argv[i + 1])
         elif a == '--usize-overflow=panic': USIZE_CHECKED = True
         elif a == '--usize-overflow=unchecked': USIZE_CHECKED = False
         elif a.startswith('--'):
